@@ -3,14 +3,14 @@ E4: preemption-bounded schedule exploration of real pthreads (deciding step) + f
 import os, re, json, subprocess, time
 from vp import build, core, globals as G
 
-WRAP = "-Wl,--wrap=chdir -Wl,--wrap=getcwd -Wl,--wrap=ran_start -Wl,--wrap=ran_num_next -Wl,--wrap=rand -Wl,--wrap=srand -Wl,--wrap=time -Wl,--wrap=localtime"
+WRAP = "-Wl,--wrap=rename -Wl,--wrap=unlink -Wl,--wrap=remove -Wl,--wrap=chdir -Wl,--wrap=getcwd -Wl,--wrap=ran_start -Wl,--wrap=ran_num_next -Wl,--wrap=rand -Wl,--wrap=srand -Wl,--wrap=time -Wl,--wrap=localtime"
 def exes():
     return {"sched": build.link("plain-nopool", "c17_sched", ["c17_sched.c"], WRAP),
             "sched_fn": build.link("plain-nopool-instr", "c17_sched", ["c17_sched.c"], WRAP),
             "tsan": build.link("tsan-nopool", "c17_tsan", ["kernel.c", "c17_tsan.c"], "-Wl,--wrap=exit -Wl,--wrap=time")}
 def prepare(): exes()
 
-MIX2 = ["plain|plain-latex", "plain|email", "email|email2", "random-foot|random-foot2", "epub|plain", "plain+plain-latex|plain-latex+plain", "epub|email", "critic-a|critic-r", "opml-in|meta", "de|plain", "epub-dir-a|epub-dir-b", "odt-dir-a|epub-dir-b", "trans-dir-a|trans-dir-a2", "trans-dir-a|trans-dir-b", "img-a|img-b", "raw-a|raw-b", "sink-a|sink-b", "sink-b-latex|sink-a-fodt"]
+MIX2 = ["plain|plain-latex", "plain|email", "email|email2", "random-foot|random-foot2", "epub|plain", "plain+plain-latex|plain-latex+plain", "epub|email", "critic-a|critic-r", "opml-in|meta", "de|plain", "epub-dir-a|epub-dir-b", "odt-dir-a|epub-dir-b", "trans-dir-a|trans-dir-a2", "trans-dir-a|trans-dir-b", "tofile-a|tofile-b", "tofile-a|tofile-c", "img-a|img-b", "raw-a|raw-b", "sink-a|sink-b", "sink-b-latex|sink-a-fodt"]
 MIX3 = ["plain|plain-latex|plain", "plain|email|plain-latex", "email|email2|random-foot"]
 BOUND2_ONLY = {"email|email2|random-foot"}      # three threads that all draw random numbers: > 2*10^5 schedules at bound 3; explored completely at bound 2
 BENIGN = {"lc_lookup", "yyRuleName", "yyTokenName", "s_error_descs"}
@@ -52,7 +52,7 @@ def run(tier):
     # 1. inventory of writable globals in the pool-disabled objects
     syms = G.repo_writable_symbols("plain-nopool")
     rep.extra["writable_globals_pool_disabled"] = sorted("%s (%s)" % (n, o) for n, o in syms.items())
-    rep.extra["scheduling_points"] = ["ran_start", "ran_num_next", "rand", "srand", "time", "localtime", "chdir", "getcwd"]
+    rep.extra["scheduling_points"] = ["ran_start", "ran_num_next", "rand", "srand", "time", "localtime", "chdir", "getcwd", "rename", "unlink", "remove"]
     uncovered = sorted(n for n in syms if n not in BENIGN and not n.startswith("ran_") and not n.startswith("yyTrace"))
     rep.extra["writable_globals_without_scheduling_point"] = uncovered
     rep.rule = ("E4: T real pthreads, each converting 1-2 different documents with its own engine (pool disabled); scheduling points at every access to process-global mutable state (ran_start, ran_num_next, rand, srand, time, localtime, wrapped at link "
